@@ -54,6 +54,12 @@ def make_components():
         return "distanceXY {\n%s%s  axis %s\n%s" % (grp("main", a), grp("ref", b), vec(ax), extra), [a, b]
     C["distanceXY"] = ("scalar", distance_xy)
 
+    def distance_xy2(rng, P, extra=""):
+        a, b = two(rng)
+        c = rng.sample([i for i in range(NAT) if i not in a and i not in b], 2)
+        return "distanceXY {\n%s%s%s%s" % (grp("main", a), grp("ref", b), grp("ref2", c), extra), [a, b, c]
+    C["distanceXY_ref2"] = ("scalar", distance_xy2)
+
     def distance_inv(rng, P, extra=""):
         a, b = two(rng)
         return "distanceInv {\n%s%s  exponent %d\n%s" % (grp("group1", a), grp("group2", b), rng.choice([2, 4, 6]), extra), [a, b]
